@@ -23,9 +23,12 @@ func (v *Validator) Entity(entity types.Entity) error {
 		return v.validateEntity(entity, schemaEntity)
 	}
 
-	// Enum entities are accepted if the type exists
-	if _, ok := v.schema.Enums[et]; ok {
-		return nil
+	// An enum entity must be one of the declared values and has no parents, attributes or tags
+	if enum, ok := v.schema.Enums[et]; ok {
+		if !slices.Contains(enum.Values, entity.UID) {
+			return fmt.Errorf("entity %s is not one of the values of enum type %q", entity.UID, et)
+		}
+		return v.validateEntity(entity, resolved.Entity{Name: et})
 	}
 
 	return newDeserError(fmt.Sprintf("entity type %q not found in schema", et))
